@@ -71,8 +71,24 @@ func nearStrings(s string) []string {
 type dgen struct {
 	r      *rand.Rand
 	counts map[string]int
-	pre    []string // package-level constant declarations of the current program
+	pre    []string // package-level constant / type declarations of the current program
 	nconst int
+	ntype  int
+	// the types typed named constants are declared with in the function being generated: `int` / `string` or a named
+	// type with that underlying type (the compiler looks at underlying types only; there are no conversions)
+	intTy, strTy string
+}
+
+// namedType declares `type qt<n> <under>` now and then and returns the type to use.
+func (d *dgen) namedType(under string) string {
+	if d.r.Intn(3) != 0 {
+		return under
+	}
+	d.note("data:named-type")
+	name := fmt.Sprintf("qt%d", d.ntype)
+	d.ntype++
+	d.pre = append(d.pre, "type "+name+" "+under)
+	return name
 }
 
 func (d *dgen) note(k string) { d.counts[k]++ }
@@ -224,7 +240,7 @@ func (d *dgen) str(v string) string {
 		return d.named("", strconv.Quote(v))
 	case 4:
 		d.note("spell:named-typed-const")
-		return d.named("string", strconv.Quote(v))
+		return d.named(d.strTy, strconv.Quote(v))
 	case 5:
 		if utf8.ValidString(v) {
 			d.note("spell:ascii-quoted")
@@ -296,7 +312,7 @@ func (d *dgen) numIn(v int64, allowRune bool) string {
 		return d.named("", strconv.FormatInt(v, 10))
 	case 9:
 		d.note("spell:named-typed-const")
-		return d.named("int", strconv.FormatInt(v, 10))
+		return d.named(d.intTy, strconv.FormatInt(v, 10))
 	case 10:
 		if v == 0 {
 			d.note("spell:minus-zero")
@@ -371,8 +387,9 @@ func (d *dgen) fnStrTable(idx int) *gfunc {
 	d.note("data:str-table")
 	fam := d.strFamily()
 	f := &gfunc{name: fmt.Sprintf("qf%d", idx), res: gStr, params: []gvar{{name: "p0", ty: gInt}, {name: "p1", ty: gStr}}}
+	d.strTy = d.namedType("string")
 	var b fbuf
-	b.l("func %s(p0 int, p1 string) string {", f.name)
+	b.l("func %s(p0 int, p1 %s) %s {", f.name, d.strTy, d.strTy)
 	for i, c := range fam {
 		b.l("\tif p0 == %d {", i)
 		switch d.r.Intn(4) {
@@ -410,8 +427,9 @@ func (d *dgen) fnStrCompare(idx int) *gfunc {
 	d.note("data:str-compare")
 	fam := d.strFamily()
 	f := &gfunc{name: fmt.Sprintf("qf%d", idx), res: gInt, params: []gvar{{name: "p0", ty: gStr}}}
+	d.strTy = d.namedType("string")
 	var b fbuf
-	b.l("func %s(p0 string) int {", f.name)
+	b.l("func %s(p0 %s) int {", f.name, d.strTy)
 	b.l("\tv0 := 0")
 	for i, c := range fam {
 		switch d.r.Intn(3) {
@@ -468,12 +486,13 @@ func (d *dgen) fnIntTable(idx int) *gfunc {
 	d.note("data:int-table")
 	fam := d.intFamily()
 	f := &gfunc{name: fmt.Sprintf("qf%d", idx), res: gInt, params: []gvar{{name: "p0", ty: gInt}, {name: "p1", ty: gInt}}}
+	d.intTy = d.namedType("int")
 	var b fbuf
-	b.l("func %s(p0 int, p1 int) int {", f.name)
+	b.l("func %s(p0 int, p1 %s) %s {", f.name, d.intTy, d.intTy)
 	for i, c := range fam {
 		b.l("\tif p0 == %d {\n\t\treturn %s\n\t}", i, d.num(c))
 	}
-	b.l("\tv0 := 0")
+	b.l("\tv0 := p1 - p1")
 	for j, i := range d.r.Perm(len(fam)) {
 		ops := []string{"==", "!=", "<", "<=", ">", ">="}
 		b.l("\tif p1 %s %s {\n\t\tv0 = v0 + %d\n\t}", ops[d.r.Intn(len(ops))], d.num(fam[i]), 1<<uint(j))
@@ -721,11 +740,12 @@ func (d *dgen) fnStrconv(idx int) *gfunc {
 
 // program generates one data program: 1..3 functions, the named constants they use declared before the first one.
 func (d *dgen) program() []*gfunc {
-	d.pre, d.nconst = nil, 0
+	d.pre, d.nconst, d.ntype = nil, 0, 0
 	n := 1 + d.r.Intn(3)
 	var fs []*gfunc
 	for i := 0; i < n; i++ {
 		var f *gfunc
+		d.intTy, d.strTy = "int", "string"
 		switch d.r.Intn(12) {
 		case 0, 1, 2:
 			f = d.fnStrTable(i)
@@ -760,7 +780,8 @@ func (d *dgen) program() []*gfunc {
 const numSweeps = 7
 
 func (d *dgen) sweepProgram(k int) []*gfunc {
-	d.pre, d.nconst = nil, 0
+	d.pre, d.nconst, d.ntype = nil, 0, 0
+	d.intTy, d.strTy = "int", "string"
 	d.note("data:native-sweep")
 	ps := func(n string) gvar { return gvar{name: n, ty: gStr} }
 	pi := func(n string) gvar { return gvar{name: n, ty: gInt} }
